@@ -2,7 +2,7 @@
    Repository.ParseReference and the URL builders of registry/remote/url.go.
    The regular expressions come from Generated/Regexes.v (re-translated from the
    Go source on every run).  The registry check (net/url) is a parameter. *)
-From Oras Require Import Base.Prelude Base.Regex Generated.Regexes.
+From Oras Require Import Base.Prelude Base.Regex Generated.GC20.
 
 Record reference := mkRef { r_registry : str; r_repository : str; r_reference : str }.
 
